@@ -104,7 +104,7 @@ Fixpoint hw_piece (fuel : nat) (b : wblock) (t : tag) (w : N) (rest : text)
 Fixpoint hw_elems (b : wblock) (els : list elem) (lineleft : N) : res wblock :=
   match els with
   | [] => Ok b
-  | Frag _ :: els' => hw_elems b els' lineleft        (* markers are dropped here *)
+  | Frag n :: els' => hw_elems (set_line b (tl_push (wline b) (Frag n))) els' lineleft
   | Str s t :: els' =>
     do r <- hw_piece (2 * length s + 2) b t (swidth s) s false lineleft 0;
     let '(b', ll) := r in hw_elems b' els' ll
